@@ -93,3 +93,4 @@ func VerifCmdTwin(n int) {
 	_, err := r.Read(buf)
 	vAssert(err == nil, "twin: must fail")
 }
+
